@@ -143,6 +143,7 @@ package resources
 // "claim reservations in place": the claim's status lists the pod (by name and UID) as a consumer.
 //@ define claimReservedFor(c *resourceapi.ResourceClaim, pod *v1.Pod) bool = exists i int :: 0 <= i && i < len(c.Status.ReservedFor) && c.Status.ReservedFor[i].Name == pod.Name && c.Status.ReservedFor[i].UID == pod.UID && c.Status.ReservedFor[i].Resource == "pods" && c.Status.ReservedFor[i].APIGroup == ""
 //@ define isPodRef(c *resourceapi.ResourceClaim, i int, pod *v1.Pod) bool = c.Status.ReservedFor[i].Name == pod.Name && c.Status.ReservedFor[i].UID == pod.UID && c.Status.ReservedFor[i].Resource == "pods" && c.Status.ReservedFor[i].APIGroup == ""
+//@ define sameRefAsOld(c *resourceapi.ResourceClaim, i int) bool = c.Status.ReservedFor[i].Name == old(c.Status.ReservedFor[i].Name) && c.Status.ReservedFor[i].UID == old(c.Status.ReservedFor[i].UID) && c.Status.ReservedFor[i].Resource == old(c.Status.ReservedFor[i].Resource) && c.Status.ReservedFor[i].APIGroup == old(c.Status.ReservedFor[i].APIGroup)    // (added by plug2)
 //@ func UpsertReservedFor
 //@   props C11
 //@   requires claim != nil && pod != nil
@@ -150,8 +151,71 @@ package resources
 //@   loop 1
 //@     invariant -1 <= rangeindex && rangeindex < len(claim.Status.ReservedFor)
 //@     invariant claim.Status.ReservedFor == old(claim.Status.ReservedFor)
+//@     invariant forall j int :: 0 <= j && j <= rangeindex ==> !isPodRef(claim, j, pod)    // (added by plug2)
 //@     decreases len(claim.Status.ReservedFor) - rangeindex
 //@   hint [witness] (len(claim.Status.ReservedFor) == old(len(claim.Status.ReservedFor)) + 1 && isPodRef(claim, len(claim.Status.ReservedFor) - 1, pod)) || (rangeindex + 1 < len(claim.Status.ReservedFor) && isPodRef(claim, rangeindex + 1, pod))
 //@   ensures [pod-listed-as-consumer] claimReservedFor(claim, pod)
 //@   ensures [at-most-one-entry-added] len(claim.Status.ReservedFor) == old(len(claim.Status.ReservedFor)) || len(claim.Status.ReservedFor) == old(len(claim.Status.ReservedFor)) + 1
+// (the three clauses below were added by helper plug2, C13: what Upsert adds is exactly what RemoveReservedFor removes)
+//@   ensures [every-other-consumer-kept] forall i int :: 0 <= i && i < old(len(claim.Status.ReservedFor)) ==> sameRefAsOld(claim, i)
+//@   ensures [appended-iff-not-yet-listed] len(claim.Status.ReservedFor) == old(len(claim.Status.ReservedFor)) + ite(old(claimReservedFor(claim, pod)), 0, 1)
+//@   ensures [appended-entry-is-the-pod] len(claim.Status.ReservedFor) == old(len(claim.Status.ReservedFor)) + 1 ==> isPodRef(claim, len(claim.Status.ReservedFor) - 1, pod)
+//@ end
+
+// ===== section owned by helper plug2 (C13 / C12 / C04 / C10: the scheduler-side DRA plugin, pkg/scheduler/plugins/dynamicresources) =====
+// A consumer reference is the quadruple (APIGroup, Resource, Name, UID); hasRef: the claim's status lists it.
+//@ define hasRef(c *resourceapi.ResourceClaim, g string, r string, n string, u types.UID) bool = exists i int :: 0 <= i && i < len(c.Status.ReservedFor) && c.Status.ReservedFor[i].APIGroup == g && c.Status.ReservedFor[i].Resource == r && c.Status.ReservedFor[i].Name == n && c.Status.ReservedFor[i].UID == u
+//@ define isPodQuad(pod *v1.Pod, g string, r string, n string, u types.UID) bool = g == "" && r == "pods" && n == pod.Name && u == pod.UID
+
+// C13 "leaves the scheduler's view of ... resource claims ... exactly as it was": RemoveReservedFor is the mirror of
+// UpsertReservedFor: afterwards the pod is no consumer, and every other consumer reference is listed iff it was listed.
+//@ func RemoveReservedFor
+//@   props C13 C10
+//@   requires claim != nil && pod != nil
+//@   modifies claim.Status.ReservedFor
+//@   loop 1
+//@     invariant -1 <= rangeindex && rangeindex < len(claim.Status.ReservedFor)
+//@     invariant claim.Status.ReservedFor == old(claim.Status.ReservedFor)
+//@     invariant len(newReservedFor) <= rangeindex + 1
+//@     invariant forall j int :: 0 <= j && j < len(newReservedFor) ==> !(newReservedFor[j].Name == pod.Name && newReservedFor[j].UID == pod.UID && newReservedFor[j].Resource == "pods" && newReservedFor[j].APIGroup == "")
+//@     invariant forall i int :: 0 <= i && i <= rangeindex && !isPodRef(claim, i, pod) ==> (exists j int :: 0 <= j && j < len(newReservedFor) && newReservedFor[j].APIGroup == claim.Status.ReservedFor[i].APIGroup && newReservedFor[j].Resource == claim.Status.ReservedFor[i].Resource && newReservedFor[j].Name == claim.Status.ReservedFor[i].Name && newReservedFor[j].UID == claim.Status.ReservedFor[i].UID)
+//@     invariant len(newReservedFor) == (count i in range(0, rangeindex + 1) :: !isPodRef(claim, i, pod))
+//@     decreases len(claim.Status.ReservedFor) - rangeindex
+//@   ensures [pod-no-longer-consumer] !claimReservedFor(claim, pod)
+//@   note NOT proved (engine: the loop invariant "every kept entry was listed: forall j exists i <= rangeindex" stays `unknown` after 180 s, nested exists under forall over a freshly appended struct array): the converse inclusion "an entry listed afterwards was listed before"; what IS proved bounds it: the length equals the number of non-pod entries before, and each of those is still listed
+//@   ensures [every-other-consumer-kept] forall g string, r string, n string, u types.UID :: old(hasRef(claim, g, r, n, u)) && !isPodQuad(pod, g, r, n, u) ==> hasRef(claim, g, r, n, u)
+//@   ensures [exactly-the-pod-entries-dropped] len(claim.Status.ReservedFor) == (count i in range(0, old(len(claim.Status.ReservedFor))) :: !old(isPodRef(claim, i, pod)))
+//@   ensures [never-grows] len(claim.Status.ReservedFor) <= old(len(claim.Status.ReservedFor))
+//@ end
+
+// which API object a pod-level claim reference names: the direct name, else (template claims) the generated name the
+// pod status records for that reference - the FIRST status entry with that name and a recorded claim name.
+//@ define rcStatusHit(pod *v1.Pod, n string, i int) bool = pod.Status.ResourceClaimStatuses[i].Name == n && pod.Status.ResourceClaimStatuses[i].ResourceClaimName != nil
+//@ define rcFirstHit(pod *v1.Pod, n string, i int) bool = 0 <= i && i < len(pod.Status.ResourceClaimStatuses) && rcStatusHit(pod, n, i) && (forall j int :: 0 <= j && j < i ==> !rcStatusHit(pod, n, j))
+//@ func GetResourceClaimName
+//@   props C13 C12 C10 C04
+//@   requires pod != nil && podClaim != nil
+//@   pure
+//@   loop 1
+//@     invariant -1 <= rangeindex && rangeindex < len(pod.Status.ResourceClaimStatuses)
+//@     invariant forall j int :: 0 <= j && j <= rangeindex ==> !rcStatusHit(pod, podClaim.Name, j)
+//@     decreases len(pod.Status.ResourceClaimStatuses) - rangeindex
+//@   ensures [direct-name] podClaim.ResourceClaimName != nil ==> result1 == nil && result0 == *podClaim.ResourceClaimName
+//@   ensures [no-name-no-template] podClaim.ResourceClaimName == nil && podClaim.ResourceClaimTemplateName == nil ==> result1 != nil
+//@   ensures [template-resolved-iff-recorded] podClaim.ResourceClaimName == nil && podClaim.ResourceClaimTemplateName != nil ==> ((result1 == nil) == (exists i int :: 0 <= i && i < len(pod.Status.ResourceClaimStatuses) && rcStatusHit(pod, podClaim.Name, i)))
+//@   ensures [template-name-is-first-recorded] podClaim.ResourceClaimName == nil && result1 == nil ==> (forall i int :: rcFirstHit(pod, podClaim.Name, i) ==> result0 == *pod.Status.ResourceClaimStatuses[i].ResourceClaimName)
+//@   ensures [error-has-no-name] result1 != nil ==> result0 == ""
+//@ end
+
+// a claim asks for a GPU: one of its exact device requests names a device class containing "gpu" (case-insensitive)
+//@ define gpuRequestAt(claim *resourceapi.ResourceClaim, i int) bool = claim.Spec.Devices.Requests[i].Exactly != nil && IsGPUDeviceClass(claim.Spec.Devices.Requests[i].Exactly.DeviceClassName)
+//@ func IsGpuResourceClaim
+//@   props C04 C10
+//@   requires claim != nil
+//@   pure
+//@   loop 1
+//@     invariant -1 <= rangeindex && rangeindex < len(claim.Spec.Devices.Requests)
+//@     invariant forall j int :: 0 <= j && j <= rangeindex ==> !gpuRequestAt(claim, j)
+//@     decreases len(claim.Spec.Devices.Requests) - rangeindex
+//@   ensures result == (exists i int :: 0 <= i && i < len(claim.Spec.Devices.Requests) && gpuRequestAt(claim, i))
 //@ end
